@@ -254,6 +254,7 @@ def replay(prop: str, path: str) -> int:
             out = os.path.join(run_dir, f"replay{k}.jsonl")
             env = dict(os.environ)
             env["PYTHONHASHSEED"] = str(hs)
+            env["VERIF_REPLAY_ROLE"] = str(k)
             env["VERIF_SCRATCH"] = run_dir
             env["PYTHONDONTWRITEBYTECODE"] = "1"
             p = subprocess.run([PY, os.path.join(VERIF, "worker.py"), "replay", prop,
